@@ -27,6 +27,10 @@ pub struct EncodeOpts {
     /// order of the records inside the parents section: None = same order as the term records,
     /// Some(seed) = an independent pseudo-random order
     pub parent_record_order: Option<u64>,
+    /// None = one parent record per term (the library's own style); Some(seed) = the links of a term
+    /// may be spread over several records of the section (one record per link, arbitrary splits,
+    /// an additional record without parents), placed anywhere in the section
+    pub split_parent_records: Option<u64>,
 }
 
 /// Encode the facts in exactly the order they appear in the FactSet.
@@ -82,14 +86,61 @@ pub fn encode(f: &FactSet, opts: &EncodeOpts) -> (Vec<u8>, Layout) {
         let mut r = crate::rng::Rng::new(seed);
         r.shuffle(&mut parent_order);
     }
+    // (child, parents) records
+    let mut records: Vec<(u32, Vec<u32>)> = Vec::new();
     for t in parent_order {
         let ps = by_child.get(&t.id).cloned().unwrap_or_default();
         if ps.is_empty() && !opts.emit_empty_parent_records {
             continue;
         }
+        records.push((t.id, ps));
+    }
+    if let Some(seed) = opts.split_parent_records {
+        let mut r = crate::rng::Rng::new(seed);
+        let mut split: Vec<(u32, Vec<u32>)> = Vec::new();
+        for (c, ps) in records {
+            if ps.len() < 2 && !r.chance(1, 4) {
+                // single-link and empty records mostly stay; sometimes an extra empty record joins
+                split.push((c, ps));
+                continue;
+            }
+            match r.below(3) {
+                0 => {
+                    // one record per link
+                    for p in &ps {
+                        split.push((c, vec![*p]));
+                    }
+                    if ps.is_empty() {
+                        split.push((c, vec![]));
+                    }
+                }
+                1 => {
+                    // two chunks
+                    let cut = if ps.is_empty() { 0 } else { r.urange(0, ps.len()) };
+                    split.push((c, ps[..cut].to_vec()));
+                    split.push((c, ps[cut..].to_vec()));
+                }
+                _ => {
+                    // the full record and an additional record without parents
+                    if r.chance(1, 2) {
+                        split.push((c, vec![]));
+                        split.push((c, ps));
+                    } else {
+                        split.push((c, ps));
+                        split.push((c, vec![]));
+                    }
+                }
+            }
+        }
+        if r.chance(1, 2) {
+            r.shuffle(&mut split);
+        }
+        records = split;
+    }
+    for (c, ps) in records {
         rel.push(sec.len());
         be32(&mut sec, ps.len() as u32);
-        be32(&mut sec, t.id);
+        be32(&mut sec, c);
         for p in ps {
             be32(&mut sec, p);
         }
